@@ -127,6 +127,57 @@ def w_format_positions(ctx):
     return (True, 'positions are measured on the rendering they are taken in (%d walks)' % sub.rules['N9'].instances)
 
 
+_WALK = {}
+
+
+def _walk_format_number(ctx):
+    from ..report import Ctx
+    from .C07 import n9_assembly_table
+    sub = Ctx('C07', ctx.tier, ctx.facts, ctx.cg, ctx.config, ctx.repo, ctx.cfg_name)
+    try:
+        n9_assembly_table(sub)
+        ok = not sub.findings and getattr(sub, '_c07_positions', None) is not None and not sub._c07_positions[0]
+    except Exception:
+        ok = False
+    return ok, dict(getattr(sub, '_c07_visited', {})), 'on every one of the %d walks of format_number over symbolic renderings (integer part 1..%d digits) this site is passed without unwinding, and positions are measured on the rendering they are taken in' % (
+        sub.rules['N9'].instances if 'N9' in sub.rules else 0, getattr(sub, '_c07_maxlen', 0))
+
+
+def _walk_char_map(ctx):
+    from ..report import Ctx
+    from .C17 import h5_position_table
+    sub = Ctx('C17', ctx.tier, ctx.facts, ctx.cg, ctx.config, ctx.repo, ctx.cfg_name)
+    try:
+        ok = bool(h5_position_table(sub)) and not sub.findings
+    except Exception:
+        ok = False
+    return ok, dict(getattr(sub, '_h5_visited', {})), 'on every walk of UiTokenCollection::new and get_position over lines of 0..%d characters of 1..4 bytes and every byte offset of the line this site is passed without unwinding' % getattr(sub, '_h5_kmax', 0)
+
+
+WALKERS = [(r'^formatter::format_number$', 'format_number', _walk_format_number),
+           (r'^<?token::ui_token::', 'char_map', _walk_char_map)]
+
+
+def walk_discharge(ctx, ob):
+    """a position obligation (an unwrap of an element taken by position, an index, a checked subtraction of lengths or
+    positions) inside a function one of the E6c tables walks - format_number (C07 N9), the byte -> character map (C17 H5):
+    the machine evaluates the overflow flags and the bounds checks, and an unwrap of None ends a walk; every walk returns and
+    the site is on at least one of them. A bounded argument (the shapes tabulated); the positions are sums and differences of
+    the lengths varied, not of the contents."""
+    if ob.kind not in ('unwrap-option', 'overflow', 'index', 'vec-position'):
+        return None
+    for rx, name, fn in WALKERS:
+        if not re.search(rx, ob.body.path):
+            continue
+        key = (name, getattr(ctx, 'digest', None), ctx.cfg_name, ctx.tier)
+        if key not in _WALK:
+            _WALK[key] = fn(ctx)
+        ok, visited, text = _WALK[key]
+        if ok and ob.bid in visited.get(ob.body.path, ()):
+            return ('walk', text)
+    return None
+
+
 WITNESSES = {
     'format-positions-own-rendering': w_format_positions,
     'patterns-nonempty': w_patterns_nonempty,
@@ -162,7 +213,7 @@ def p1_panics(ctx):
     n = 0
     for ob in obs:
         n += 1
-        d = D.discharge(ob)
+        d = D.discharge(ob) or walk_discharge(ctx, ob)
         if d:
             ctx.ok('P1', '%s: %s' % (ob.key(), d[1]), d[0], site=ob.loc, sample=(n % 41 == 0))
         else:
